@@ -60,3 +60,8 @@ check("C12", "model_checking",
   "One (FIFO) schedule per run because the oracle is differential; the uninterrupted run is executed twice and must be identical; <= 12 client operations.",
   "exhaustive enumeration of crash/eviction points over executions of the implementation with a differential (uninterrupted vs interrupted) oracle",
   "DESIGN.md section 4 C12")
+check("C13", "model_checking",
+  "Every pair (a triple in thorough) of processes from a set of four workflow kinds, one of them ended by complete / abort / error, is run on one engine under every interleaving of the activities of the processes within d deviations from 'stay with the current process, oldest first', with one eviction of any cached process at any boundary and with a configured cache capacity of 1; the per-pid projection (message multiset, task outcomes, terminal outputs, ids erased) must lie in the outcome set of that process explored alone and never evicted; no message may carry a value of the other process; a second start with the same pid is tried at five positions relative to launch and completion.",
+  "Atomic activities; runtime thread count subsumed (any number of workers yields a subset of these interleavings); bounds 2-3 processes, d <= 2/3, 1 eviction; workflows whose reload is a recorded C12 finding are not in the alphabet.",
+  "stateless model checking of the implementation: deviation-bounded replay DFS over multi-process interleavings with a per-process projection compared against the solo outcome set (differential)",
+  "DESIGN.md section 4 C13")
